@@ -93,9 +93,13 @@ class ServeManifest(RequestHandlerBase):
         elif mft.segment_timeline or options.patch:
             options.update(segmentTimeline=True)
         options.remove_unused_parameters(mode)
-        dash = ManifestContext(
-            manifest=mft, options=options, stream=current_stream,
-            multi_period=None)
+        try:
+            dash = ManifestContext(
+                manifest=mft, options=options, stream=current_stream,
+                multi_period=None)
+        except (ValueError, OverflowError) as err:
+            logging.info('Invalid CGI parameters: %s', err)
+            return flask.make_response('Invalid CGI parameters', 400)
         if not dash.has_media():
             return flask.make_response(
                 'No media is available for this stream and these options', 404)
@@ -161,9 +165,13 @@ class ServeMultiPeriodManifest(RequestHandlerBase):
         except ValueError as e:
             logging.info('Invalid CGI parameters: %s', e)
             return flask.make_response('Invalid CGI parameters', 400)
-        dash = ManifestContext(
-            manifest=current_manifest, options=options, stream=None,
-            multi_period=current_mps)
+        try:
+            dash = ManifestContext(
+                manifest=current_manifest, options=options, stream=None,
+                multi_period=current_mps)
+        except (ValueError, OverflowError) as err:
+            logging.info('Invalid CGI parameters: %s', err)
+            return flask.make_response('Invalid CGI parameters', 400)
         if not dash.has_media():
             return flask.make_response(
                 'No media is available for this stream and these options', 404)
@@ -275,9 +283,13 @@ class ServePatch(RequestHandlerBase):
         options.remove_unused_parameters('live')
         original_publish_time = datetime.datetime.fromtimestamp(
             publish, tz=UTC())
-        dash = ManifestContext(
-            manifest=mft, options=options, stream=current_stream,
-            multi_period=None)
+        try:
+            dash = ManifestContext(
+                manifest=mft, options=options, stream=current_stream,
+                multi_period=None)
+        except (ValueError, OverflowError) as err:
+            logging.info('Invalid CGI parameters: %s', err)
+            return flask.make_response('Invalid CGI parameters', 400)
         if not dash.has_media():
             return flask.make_response(
                 'No media is available for this stream and these options', 404)
